@@ -33,6 +33,10 @@ KNOWN = os.path.join(VERIF, "known_findings.json")
 GUARD = "QUANTARHEI_VERIF"
 
 
+# the Check object of this process (for run_check)
+CURRENT = [None]
+
+
 class MachineryFailure(Exception):
     pass
 
@@ -95,6 +99,7 @@ class Check:
     def __init__(self, pid, level="model_checking", argv=None):
         self.pid = pid
         self.level = level
+        CURRENT[0] = self
         argv = sys.argv[1:] if argv is None else argv
         tier = os.environ.get("VERIF_TIER", "") or "quick"
         self.replay_path = None
@@ -507,8 +512,33 @@ def run_check(main):
     except MachineryFailure as e:
         print("MACHINERY-FAILURE: %s" % e)
         sys.exit(2)
-    except Exception:
+    except Exception as e:
         traceback.print_exc()
+        # An exception raised INSIDE the library (innermost frame in the
+        # repository) by a call the check makes for an input in the
+        # property's domain: the library gave no result where the property
+        # states one.  Reported as a violation (the replay re-runs the check);
+        # anything raised by the harness itself is a machinery failure.
+        frames = traceback.extract_tb(sys.exc_info()[2])
+        inner = frames[-1] if frames else None
+        repo_real = os.path.realpath(REPO) + os.sep
+        if CURRENT[0] is not None and inner is not None and \
+                os.path.realpath(inner.filename).startswith(repo_real):
+            ck = CURRENT[0]
+            rel = os.path.realpath(inner.filename)[len(repo_real):]
+            ck.violation("library-exception",
+                         "%s:%s:%s" % (rel, inner.name, type(e).__name__),
+                         dict(exception=repr(e)[:300], file=rel,
+                              function=inner.name, line=inner.lineno,
+                              harness_line=next((
+                                  "%s:%d" % (os.path.basename(f.filename),
+                                             f.lineno) for f in frames
+                                  if os.sep + "checks" + os.sep in
+                                  f.filename), None)),
+                         dict(kind="library-exception"))
+            ck.assume("the run stopped at an exception raised inside the "
+                      "library; clauses after that point were not evaluated")
+            sys.exit(ck.finish())
         print("MACHINERY-FAILURE: unexpected exception in the harness")
         sys.exit(2)
     sys.exit(rc)
